@@ -209,7 +209,8 @@ class Gen:
         if r < 0.53:
             return self.math_node(doc, env)
         if r < 0.60:    # super variable
-            p, t, cur = self.path(doc, env) if self.r.random() < 0.3 else ({"loop": [], "base": U("phrase"), "steps": []}, "phrase", None)
+            # the phrase is addressed from the root: whether it may be a loop variable is not documented (the engine does not resolve one there)
+            p, t, cur = self.path(doc, [], plain=False) if self.r.random() < 0.3 else ({"loop": [], "base": U("phrase"), "steps": []}, "phrase", None)
             subs, parts = [], []
             for _ in range(self.r.randint(1, 3)):          # the documented form has at least one sub-variable
                 n, s = self.var_node(doc, env) if self.r.random() < 0.7 else self.math_node(doc, env)
